@@ -1027,7 +1027,6 @@ class Gen:
         n = 1
         for d in lens:
             n *= d
-        n = min(n, 30)
         items = []
         badpos = rng.below(n) if mode == "baditem" and n else -1
         for i in range(n):
@@ -1130,7 +1129,7 @@ def run(ctx):
     from qv.driver import Driver
     drv = Driver("C11")
     try:
-        nseq = ctx.n(700, 3000)
+        nseq = min(ctx.n(1000, 10000), 25000)      # the 10x failing-input search is capped (time budget)
         maxops = 40 if ctx.thorough() else 20
         for sidx in range(nseq):
             rng = ctx.rng.fork(sidx)
